@@ -11,6 +11,68 @@ from c01 import A_REAL, A_LIB, EXTRACTION
 F = qr.F
 
 
+def extreme_magnitudes_corpus():
+    """BOUNDED: the range / not-NaN clauses at magnitudes where exact-real semantics says nothing (subnormals, values
+    near f64::MAX, mixed signs), executed on the real crate.  Three obligations: small samples (1..4 observations),
+    streams of >= 5 observations whose spread max-min is representable, and streams whose spread overflows."""
+    import itertools
+    import replay
+    from common import Obligation, DISCHARGED, REFUTED, UNDECIDED
+    tiny, big = 5e-324, 1.7976931348623157e308
+    small_sets = [[tiny, tiny], [tiny, 3 * tiny], [tiny, 2 * tiny, 2 * tiny, 3 * tiny], [-tiny, tiny], [1.5e308, 1.6e308], [big, big], [-big, -1.6e308],
+                  [-1.7e308, 1.7e308], [-big, big, -big, big], [1e-310, 2e-310, 3e-310], [0.0, tiny], [-0.0, 0.0], [big], [tiny], [1e308, 1.2e308, 1.4e308, 1.6e308],
+                  [2.2250738585072014e-308, 2.225073858507202e-308]]
+    ps = [0.0, 0.25, 0.5, 0.75, 1.0, 1.0 / 3.0]
+    groups = {"small_samples": [], "streams_representable_spread": [], "streams_overflowing_spread": []}
+    for xs in small_sets:
+        for perm in set(itertools.permutations(xs)) if len(xs) <= 3 else [tuple(xs), tuple(reversed(xs))]:
+            for p in ps:
+                groups["small_samples"].append((p, list(perm)))
+    reps = [[1e308, 1.2e308, 1.4e308, 1.6e308, 1.7e308, 1.1e308, 1.3e308, 1.5e308, 1.65e308, 1.05e308],
+            [-(1e308 + i * 5e306) for i in range(12)], [tiny * k for k in (1, 5, 2, 9, 3, 3, 7, 1, 4, 6, 8, 2)],
+            [1e-310 * k for k in (3, 1, 4, 1, 5, 9, 2, 6, 5, 3)], [8e307, -8e307, 4e307, -4e307, 0.0, 1e307, -1e307, 6e307, -6e307]]
+    ovs = [[-1.7e308, 1.7e308, -1.6e308, 1.6e308, -1.5e308, 1.5e308, 0.0, 1e308, -1e308],
+           [big, -big, big, -big, big, -big, 0.0], [1.2e308, -1.2e308, 1.0, 2.0, 3.0, -1.0, 1.1e308, -1.1e308]]
+    for xs in reps:
+        for p in (0.5, 0.1, 0.9):
+            groups["streams_representable_spread"].append((p, xs))
+    for xs in ovs:
+        for p in (0.5, 0.1, 0.9):
+            groups["streams_overflowing_spread"].append((p, xs))
+    out = []
+    for gname, cases in groups.items():
+        progs = [{"type": "Quantile", "ctor": ["new", p], "ops": [["add", x] for x in xs], "observe": ["quantile", "len"]} for p, xs in cases]
+        name = "C15.Quantile.extreme_magnitudes.%s" % gname
+        fn = F + "::Quantile::{add,quantile} on the real crate"
+        bound = "%d programs (subnormals, values near f64::MAX, mixed signs); quantile() must be a number inside [min, max]" % len(progs)
+        results = replay.run_programs(progs, timeout=900)
+        verdict = None
+        for pg, res, (p, xs) in zip(progs, results, cases):
+            if res.get("error"):
+                verdict = Obligation(name, fn, "replay+oracle", UNDECIDED, 0.0, "replay failed: " + res["error"], bounded=bound, kind="bounded")
+                break
+            q = res["obs"].get("quantile")
+            lo, hi = min(xs), max(xs)
+            if res["panic"] or q is None or q != q or not (lo <= q <= hi) or res["obs"].get("len") != len(xs):
+                kind = "nan" if (q is not None and q != q) else "outside_range"
+                verdict = Obligation(name, fn, "replay+oracle", REFUTED, 0.0,
+                                     "p = %r, stream %s: quantile() = %r, observations span [%r, %r]" % (p, [repr(x) for x in xs][:6], q, lo, hi),
+                                     cex={"class": {"group": gname, "kind": kind}, "program": pg, "statistic": "quantile",
+                                          "expected": "within [%r, %r]" % (lo, hi), "actual": repr(q)}, bounded=bound, kind="bounded")
+                break
+        out.append(verdict or Obligation(name, fn, "replay+oracle", DISCHARGED, 0.0, "all estimates are numbers inside the data range", bounded=bound, kind="bounded",
+                                         text="range clause at extreme magnitudes"))
+    return out
+
+
+def confirm(ob):
+    c = ob.cex or {}
+    if c.get("program") and c.get("statistic"):
+        return {"program": c["program"], "expected": {c["statistic"]: c.get("expected")}, "actual": {c["statistic"]: c.get("actual")},
+                "confirmed_on_real_code": True}
+    return c05.confirm(ob)
+
+
 def run(tier, seed):
     pr = Prover("C15", tier)
     cr = qr.load()
@@ -74,6 +136,7 @@ def run(tier, seed):
         # (the bit-precise integer skeleton of add, harness add_positions_step, does not terminate within 2000 s: not registered)
         job.add(Harness("linear_between_f64", "C15.Quantile.linear.between_f64", F + "::Quantile::linear"))
     obs += job.run()
+    obs += extreme_magnitudes_corpus()
     meta = {
         "level": "proof",
         "checker_cmd": "./check C15 (rsx -> RS executor -> z3; cargo kani on a scratch copy + contracts/kani/quantile.rs)",
@@ -83,7 +146,7 @@ def run(tier, seed):
         "trusted_base": ["rsx + RS executor (own code)", "z3 5.1", "Kani 0.68 / CBMC 6.11"],
         "assumptions": [A_REAL + " (RS part: heights ordered, estimate within [min,max]); bit-precise only where K is the engine (new panics iff, integer bookkeeping of add%s)" % (", linear step between neighbours" if tier == "thorough" else ""),
                         A_LIB, "well-formedness is an inductive invariant: established by the fifth observation (fill[count=4]), preserved by the prologue and by each marker adjustment",
-                        "streams of finite, non-NaN observations"],
+                        "streams of finite, non-NaN observations; magnitudes at which f64 arithmetic overflows or underflows are outside exact-real semantics and are exercised only by the BOUNDED corpus extreme_magnitudes.*"],
         "explanation": "running min/max in the extreme markers, ordered heights, strictly increasing positions, exact count and untouched p as stage contracts of add; quantile() inside the range in all phases.",
     }
-    return obs, meta, c05.confirm
+    return obs, meta, confirm
